@@ -428,8 +428,23 @@ class Interp(ExprMixin):
         if isinstance(target, ast.Name):
             env[target.id] = v
         elif isinstance(target, (ast.Tuple, ast.List)):
-            items = self.unpack(v, target, module)
             star = [i for i, e in enumerate(target.elts) if isinstance(e, ast.Starred)]
+            rv = self.resolve_alt(v)
+            if star and isinstance(rv, PyList) and rv.loop_parts and star[0] == len(target.elts) - 1 and len(rv.items) >= star[0]:
+                # head, *rest = [a, b, ...] + <parts appended in loops>: the head comes from the concrete prefix
+                si = star[0]
+                for i, e in enumerate(target.elts[:si]):
+                    self.assign(e, rv.items[i], env, module)
+                rest = PyList(list(rv.items[si:]))
+                rest.loop_parts = [(o, list(per)) for o, per in rv.loop_parts]
+                rest.created_in = self._frame_id()
+                if getattr(rv, "_minextra", 0):
+                    rest._minextra = rv._minextra  # type: ignore[attr-defined]
+                self.assign(target.elts[si].value, rest, env, module)
+                return
+            if isinstance(rv, PyList) and rv.loop_parts:
+                v = self._to_abs(rv)
+            items = self.unpack(v, target, module)
             if star:
                 si = star[0]
                 after = len(target.elts) - si - 1
@@ -727,7 +742,7 @@ class Interp(ExprMixin):
         here (raise now / continue); otherwise the possibility is only recorded."""
         caught = self._caught_by_enclosing(excq)
         self.event("may_raise", exc=excq, what=what, caught=caught, definite=definite,
-                   func=self.stack[-1][0] if self.stack else "")
+                   func=self.stack[-1][0] if self.stack else "", in_exc_ctor=getattr(self, "_in_exc_ctor", None))
         if caught and not definite:
             if self.choose(2, f"raise:{excq}") == 1:
                 self.cond(f"raises {excq.rsplit('.', 1)[-1]}", what or self.cur_where)
